@@ -140,4 +140,15 @@ def run (pv : Pure V) : State V → List Op → List (Option V) → State V × L
 def pureOf (pv : Pure V) : Attr → V
   | .plaquettes => pv.plaq | .nPlaquettes => pv.nplaq | .edgeAdj => pv.eadj | .vertexAdj => pv.vadj
 
+/-- several lattices alive at once: every lattice object has its own slots (they are instance attributes, `self._…`);
+    an operation names the object it is applied to -/
+def Heap (V : Type) := Nat → State V
+
+def Heap.set (h : Heap V) (i : Nat) (s : State V) : Heap V := fun j => if j = i then s else h j
+
+def runMany (pvs : Nat → Pure V) : Heap V → List (Nat × Op) → List (Option V) → Heap V × List (Option V)
+  | h, [], out => (h, out.reverse)
+  | h, (i, .access a) :: rest, out => let r := step (pvs i) (h i) a; runMany pvs (h.set i r.1) rest (r.2 :: out)
+  | h, (i, .pickle) :: rest, out => runMany pvs (h.set i (pickleRoundTrip (h i))) rest out
+
 end Cache
